@@ -292,12 +292,15 @@ def check_reject(case, ctx):
         if norm != want:
             raise Violation("C11/decode/rejected-valid[%s]" % case["kind"],
                             "decode(%r, %r) = %r, expected (%d, %s)" % (dhrp, s, got, want[0], want[1].hex()))
-    # the address helper built on top of the decoder (it takes the expected prefix from the first two characters): it may
-    # refuse more, but it must never hand out a program for a string BIP173/350 reject under that two-letter prefix
+    # the address helper built on top of the decoder (no expected-prefix argument): it may refuse more, but it must never
+    # hand out a program for a string BIP173/350 reject under the prefix the string itself carries
     if hasattr(H, "bech32_decode_address") and len(s) >= 2:
         st_h, prog_h = call(H.bech32_decode_address, s)
         if st_h == "ok" and prog_h is not None:
-            ok_l = R.segwit_decode(s[:2].lower(), s) if s[:2].lower() in ("bc", "tb") else R.segwit_decode(s[:2], s)
+            # the helper has no expected-prefix argument: whatever prefix the string itself carries is the one to decode under
+            low_ = s.lower() if (s.lower() == s or s.upper() == s) else s
+            own = low_[:low_.rfind("1")] if "1" in low_ else low_[:2]
+            ok_l = R.segwit_decode(own, s) if own else None
             if ok_l is None or bytes(prog_h) != ok_l[1]:
                 raise Violation("C11/helper/accepted-invalid[%s]" % case["kind"], "bech32_decode_address(%r) = %s although BIP173/350 "
                                 "reject the string (%s)" % (s, bytes(prog_h).hex(), case["kind"]))
